@@ -113,8 +113,25 @@ Section Inv.
   Definition syn_of (w : world A) (f : file) : list err :=
     match aget (ebuf w) f with Some b => syn A b | None => [] end.
 
+  (* ---------- the files of the project ---------- *)
+  Definition mem_eb (eb : amap txt) (f : file) : bool := in_dir A f || (fix_outside fx && ahas eb f).
+
+  Lemma member_eb w : member A fx w = mem_eb (ebuf w).
+  Proof. reflexivity. Qed.
+
+  Lemma mem_eb_in_dir eb f : in_dir A f = true -> mem_eb eb f = true.
+  Proof. intros H. unfold mem_eb. rewrite H. reflexivity. Qed.
+
+  Lemma mem_eb_ext eb eb' : (forall g, in_dir A g = false -> ahas eb' g = ahas eb g) -> forall g, mem_eb eb g = mem_eb eb' g.
+  Proof. intros H g. unfold mem_eb. destruct (in_dir A g) eqn:E; [reflexivity|]. rewrite (H g E). reflexivity. Qed.
+
+  Lemma good_ebuf_ext (w : world A) eb' p :
+    good_proj A (member A fx w) (disk w) p ->
+    (forall g, in_dir A g = false -> ahas eb' g = ahas (ebuf w) g) -> good_proj A (mem_eb eb') (disk w) p.
+  Proof. intros G H. apply (good_proj_mem_ext A (member A fx w)); [|exact G]. apply mem_eb_ext. exact H. Qed.
+
   Record inv (w : world A) (v : emap) : Prop := {
-    i_good : good_proj A (disk w) (pj (sv w));
+    i_good : good_proj A (member A fx w) (disk w) (pj (sv w));
     i_saved : forall f, vget (saved (ds (sv w))) f = errs_of A (pj (sv w)) f;
     i_saved_ne : nonempty_entries (saved (ds (sv w)));
     i_cache : forall f, aget (cache (sv w)) f = aget (ebuf w) f;
@@ -145,7 +162,8 @@ Section Inv.
   Lemma init_inv dk : inv (fst (init_world A fx dk)) (vapply [] (snd (init_world A fx dk))).
   Proof.
     unfold init_world, init_server. cbn [fst snd]. constructor; cbn [disk sv pj ds saved live cache ebuf dirty].
-    - exact (init_good A fx dk).
+    - apply (good_proj_mem_ext A (in_dir A)); [|exact (init_good A fx (in_dir A) dk)].
+      intros f. unfold member. cbn [ebuf ahas aget]. rewrite andb_false_r, orb_false_r. reflexivity.
     - intros f. apply vget_all_errs.
     - apply all_errs_nonempty.
     - reflexivity.
@@ -175,7 +193,7 @@ Section Inv.
 
   Lemma classes_step_nil w a w' :
     classes_step A fx w a w' = [] ->
-    k_outside A a = false /\ k_live_cleared A fx w w' = false /\ k_unhidden A fx w w' = false /\
+    k_outside A fx a = false /\ k_live_cleared A fx w w' = false /\ k_unhidden A fx w w' = false /\
     k_close_revert A fx w a = false /\ k_watched_dirty A fx w a = false /\ k_stale_ref A fx w' = false /\
     k_empty_shortcut A fx w a = false.
   Proof.
@@ -200,7 +218,10 @@ Section Inv.
   Qed.
 
   Lemma in_files_of_disk w v f : inv w v -> in_dir A f = true -> aget (disk w) f <> None -> In f (p_files (pj (sv w))).
-  Proof. intros I Hd Hp. rewrite (gp_files _ _ _ (i_good _ _ I)). apply dfiles_in. auto. Qed.
+  Proof.
+    intros I Hd Hp. rewrite (gp_files _ _ _ _ (i_good _ _ I)). apply dfiles_in. split; [|exact Hp].
+    apply mem_eb_in_dir. exact Hd.
+  Qed.
 
   Lemma fmem_frem_notin x f l : ~ In f l -> fmem x (frem f l) = fmem x l.
   Proof. intros H. rewrite frem_id by exact H. reflexivity. Qed.
@@ -220,7 +241,8 @@ Section Inv.
     unfold steps. cbn [fold_left fst snd step set_editor disk sv ebuf dirty].
     rewrite (did_open_known _ _ _ _ Hfin Hlive Hncl). cbn [fst snd app vapply fold_left].
     destruct I as [Ig Is Ine Ic Io Iv Icl Iidx]. constructor; cbn [disk sv pj ds cache ebuf dirty].
-    - apply good_set_lru. exact Ig.
+    - apply good_set_lru. apply (good_proj_mem_ext A (member A fx w)); [|exact Ig].
+      apply mem_eb_ext. cbn [ebuf]. intros g Hg. unfold ahas. rewrite aget_aset_other; [reflexivity|]. intros ->. congruence.
     - intros g. rewrite errs_of_set_lru. apply Is.
     - exact Ine.
     - intros g. rewrite !aget_aset, Ic. reflexivity.
@@ -264,7 +286,8 @@ Section Inv.
     - (* clean buffer: the live entry goes, the saved list is shown without its syntax errors *)
       destruct I as [Ig Is Ine Ic Io _ Icl Iidx].
       constructor; cbn [disk sv pj ds cache ebuf dirty mark_clean set_clean saved live clean].
-      + apply good_set_lru. exact Ig.
+      + apply good_set_lru. apply (good_ebuf_ext w); [exact Ig|]. intros g _. cbn [ebuf]. unfold ahas. rewrite aget_aset.
+        destruct (f =? g) eqn:E; [apply N.eqb_eq in E; subst g; rewrite Eb; reflexivity|reflexivity].
       + intros g. rewrite clear_change_saved, errs_of_set_lru. apply Is.
       + rewrite clear_change_saved. exact Ine.
       + intros g. rewrite !aget_aset, Ic. reflexivity.
@@ -290,7 +313,8 @@ Section Inv.
     - (* the buffer has syntax errors: they are the live entry and the view *)
       destruct I as [Ig Is Ine Ic Io _ Icl Iidx].
       constructor; cbn [disk sv pj ds cache ebuf dirty insert_change fst saved live clean].
-      + apply good_set_lru. exact Ig.
+      + apply good_set_lru. apply (good_ebuf_ext w); [exact Ig|]. intros g _. cbn [ebuf]. unfold ahas. rewrite aget_aset.
+        destruct (f =? g) eqn:E; [apply N.eqb_eq in E; subst g; rewrite Eb; reflexivity|reflexivity].
       + intros g. rewrite errs_of_set_lru. apply Is.
       + exact Ine.
       + intros g. rewrite !aget_aset, Ic. reflexivity.
@@ -308,8 +332,8 @@ Section Inv.
   Qed.
 
   (* ---------- didClose of a workspace file ---------- *)
-  Lemma did_close_in (s : server A) f : in_dir A f = true ->
-    did_close A fx s f =
+  Lemma did_close_in dk (s : server A) f : in_dir A f = true ->
+    did_close A fx dk s f =
     ({| pj := set_lru A (pj s) (frem f (p_lru (pj s))); cache := adel (cache s) f;
         ds := unmark_clean (fst (clear_change (ds s) f)) f |},
      snd (clear_change (ds s) f) ++ (if fix12b fx then push_file_diag (fst (clear_change (ds s) f)) f false else [])).
@@ -327,12 +351,13 @@ Section Inv.
   Proof.
     intros I Hd Hk. cbn [act]. destruct (aget (ebuf w) f) as [c|] eqn:Eb; [|exact I].
     unfold steps. cbn [fold_left fst snd step set_editor disk sv ebuf dirty].
-    rewrite (did_close_in _ _ Hd). cbn [fst snd app].
+    rewrite (did_close_in _ _ _ Hd). cbn [fst snd app].
     pose proof (i_view _ _ I) as Iv.
     unfold k_close_revert, saved_of, ahas in Hk. rewrite Eb in Hk. cbn [andb] in Hk.
     destruct I as [Ig Is Ine Ic Io _ Icl Iidx].
     constructor; cbn [disk sv pj ds cache ebuf dirty unmark_clean set_clean saved live clean].
-    - apply good_set_lru. exact Ig.
+    - apply good_set_lru. apply (good_ebuf_ext w); [exact Ig|]. intros g Hg. cbn [ebuf]. unfold ahas.
+      rewrite aget_adel_other; [reflexivity|]. intros ->. congruence.
     - intros g. rewrite clear_change_saved, errs_of_set_lru. apply Is.
     - rewrite clear_change_saved. exact Ine.
     - intros g. rewrite !aget_adel, Ic. reflexivity.
@@ -413,13 +438,14 @@ Section Inv.
   Qed.
 
   Lemma act_save_inv w v f :
-    inv w v -> in_dir A f = true -> conf_action A w (ASave f) = true ->
+    inv w v -> (aget (ebuf w) f <> None -> member A fx w f = true) -> conf_action A w (ASave f) = true ->
     let w' := fst (act A fx w (ASave f)) in
     k_live_cleared A fx w w' = false -> k_unhidden A fx w w' = false -> k_stale_ref A fx w' = false ->
     k_empty_shortcut A fx w (ASave f) = false ->
     inv w' (vapply v (snd (act A fx w (ASave f)))).
   Proof.
-    intros I Hd Hconf. cbn zeta. cbn [act]. destruct (aget (ebuf w) f) as [t|] eqn:Eb; [|intros; exact I].
+    intros I Hd0 Hconf. cbn zeta. cbn [act]. destruct (aget (ebuf w) f) as [t|] eqn:Eb; [|intros; exact I].
+    assert (Hd : member A fx w f = true) by (apply Hd0; discriminate). clear Hd0.
     unfold conf_action, ahas in Hconf. rewrite Eb in Hconf. cbn [negb orb andb] in Hconf.
     rewrite orb_false_r in Hconf.
     assert (Hpres : aget (disk w) f <> None) by (destruct (aget (disk w) f); [discriminate|discriminate]).
@@ -435,11 +461,11 @@ Section Inv.
     set (w' := {| disk := dk; sv := {| pj := fst pc; cache := aset (cache (sv w)) f t; ds := fst (save_push_again d1 f) |};
                   ebuf := ebuf w; dirty := frem f (dirty w) |}).
     intros Hlc Hun Hst Hemp.
-    pose proof (he_changed A fx HA (disk w) p f t (i_good _ _ I) Hd Hpres Hemp) as HE. cbn zeta in HE. fold dk pc in HE.
+    pose proof (he_changed A fx HA (member A fx w) (disk w) p f t (i_good _ _ I) Hd Hpres Hemp) as HE. cbn zeta in HE. fold dk pc in HE.
     destruct HE as [HE1 HE2].
     assert (Hidx' : fix_index fx = true -> idx_eq A (fst pc)).
     { intros Hfix. apply handle_events_idx; [exact Hfix|]. apply (i_idx _ _ I). exact Hfix. }
-    assert (Hgood : good_proj A dk (fst pc)) by (apply HE1; apply (stale_ref_false w'); [exact Hst|exact Hidx']).
+    assert (Hgood : good_proj A (member A fx w) dk (fst pc)) by (apply HE1; apply (stale_ref_false w'); [exact Hst|exact Hidx']).
     assert (Hsaved1 : saved d1 = if snd pc then new else saved (ds (sv w))) by (unfold d1; destruct (snd pc); reflexivity).
     assert (Hlive1 : live d1 = live (ds (sv w))) by (unfold d1; destruct (snd pc); reflexivity).
     assert (Hclean1 : clean d1 = clean (ds (sv w))) by (unfold d1; destruct (snd pc); reflexivity).
@@ -480,8 +506,50 @@ Section Inv.
   Qed.
 
   (* ---------- didChangeWatchedFiles ---------- *)
+  (* ---------- HandleFileEventChanges followed by pushAllDiagnosticsAgain, from any intermediate diagnostics state ----------
+     d0 / v0 / dty' / eb' / cch' = the diagnostics state, the client view, the unsaved set and the buffers just before the
+     pushAll; w = the world before the action (only the class predicates look at it) *)
+  Definition syn_eb (eb : amap txt) (f : file) : list err := match aget eb f with Some b => syn A b | None => [] end.
+
+  Lemma push_common (d0 : dstate) (v0 : emap) (dty' : list file) (eb' cch' : amap txt) dk' (pc : proj A * bool) :
+    good_proj A (mem_eb eb') dk' (fst pc) ->
+    (fix_index fx = true -> idx_eq A (fst pc)) ->
+    (snd pc = false -> forall g, errs_of A (fst pc) g = vget (saved d0) g) ->
+    nonempty_entries (saved d0) ->
+    (forall g, aget cch' g = aget eb' g) ->
+    (forall g, In g dty' -> aget eb' g <> None) ->
+    (forall g, file_ok (fmem g dty') (syn_eb eb' g) (aget (live d0) g) (vget (saved d0) g) (vget v0 g)) ->
+    (forall g, fmem g (clean d0) = fmem g dty' && is_nil (syn_eb eb' g)) ->
+    let new := all_errs A (fst pc) in
+    (snd pc = true -> forall g, fmem g dty' = true ->
+       (aget (live d0) g <> None -> is_nil new || fix12a fx = true \/ vget (saved d0) g = vget new g) /\
+       (aget (live d0) g = None -> fix_unhidden fx = false -> vget (saved d0) g = vget new g \/ has_syn (vget new g) = false)) ->
+    let d1 := if snd pc then fst (push_all_again (fix12a fx) (fix_unhidden fx) d0 new) else d0 in
+    let ps1 := if snd pc then snd (push_all_again (fix12a fx) (fix_unhidden fx) d0 new) else [] in
+    inv {| disk := dk'; sv := {| pj := fst pc; cache := cch'; ds := d1 |}; ebuf := eb'; dirty := dty' |} (vapply v0 ps1).
+  Proof.
+    intros Hgood Hidx' Hsame Hne Hc Ho Hv Hcl new Hcls d1 ps1.
+    assert (Hsaved1 : saved d1 = if snd pc then new else saved d0) by (unfold d1; destruct (snd pc); reflexivity).
+    assert (Hlive1 : live d1 = live d0) by (unfold d1; destruct (snd pc); reflexivity).
+    assert (Hclean1 : clean d1 = clean d0) by (unfold d1; destruct (snd pc); reflexivity).
+    constructor; cbn [disk sv pj ds cache ebuf dirty].
+    - exact Hgood.
+    - intros g. rewrite Hsaved1. destruct (snd pc) eqn:Ec; [apply vget_all_errs|]. symmetry. apply Hsame. reflexivity.
+    - rewrite Hsaved1. destruct (snd pc); [apply all_errs_nonempty|exact Hne].
+    - exact Hc.
+    - exact Ho.
+    - intros g. rewrite Hlive1. change (syn_of _ g) with (syn_eb eb' g). specialize (Hv g).
+      unfold ps1. destruct (snd pc) eqn:Ec.
+      + rewrite Hsaved1. apply push_all_file_ok; [exact Hv|exact Hne|apply all_errs_nonempty|apply Hcl| |].
+        * intros Hdty Hl. destruct (Hcls eq_refl g Hdty) as [C1 _]. exact (C1 Hl).
+        * intros Hdty Hl Hfu. destruct (Hcls eq_refl g Hdty) as [_ C2]. exact (C2 Hl Hfu).
+      + cbn [vapply fold_left]. rewrite Hsaved1. exact Hv.
+    - intros g. rewrite Hclean1. change (syn_of _ g) with (syn_eb eb' g). apply Hcl.
+    - exact Hidx'.
+  Qed.
+
   Lemma watched_common w v dk' (pc : proj A * bool) :
-    inv w v -> good_proj A dk' (fst pc) ->
+    inv w v -> good_proj A (member A fx w) dk' (fst pc) ->
     (fix_index fx = true -> idx_eq A (fst pc)) ->
     (snd pc = false -> forall g, errs_of A (fst pc) g = errs_of A (pj (sv w)) g) ->
     let d1 := if snd pc then fst (push_all_again (fix12a fx) (fix_unhidden fx) (ds (sv w)) (all_errs A (fst pc))) else ds (sv w) in
@@ -490,35 +558,24 @@ Section Inv.
     k_live_cleared A fx w w' = false -> k_unhidden A fx w w' = false ->
     inv w' (vapply v ps1).
   Proof.
-    intros I Hgood Hidx' Hsame. cbn zeta.
-    set (new := all_errs A (fst pc)).
-    set (d1 := if snd pc then fst (push_all_again (fix12a fx) (fix_unhidden fx) (ds (sv w)) new) else ds (sv w)).
-    set (ps1 := if snd pc then snd (push_all_again (fix12a fx) (fix_unhidden fx) (ds (sv w)) new) else []).
-    set (w' := {| disk := dk'; sv := {| pj := fst pc; cache := cache (sv w); ds := d1 |}; ebuf := ebuf w; dirty := dirty w |}).
-    intros Hlc Hun.
-    assert (Hsaved1 : saved d1 = if snd pc then new else saved (ds (sv w))) by (unfold d1; destruct (snd pc); reflexivity).
-    assert (Hlive1 : live d1 = live (ds (sv w))) by (unfold d1; destruct (snd pc); reflexivity).
-    assert (Hclean1 : clean d1 = clean (ds (sv w))) by (unfold d1; destruct (snd pc); reflexivity).
-    pose proof (i_view _ _ I) as Iv.
-    constructor; cbn [w' disk sv pj ds cache ebuf dirty].
+    intros I Hgood Hidx' Hsame. cbn zeta. intros Hlc Hun.
+    set (w' := {| disk := dk'; sv := {| pj := fst pc; cache := cache (sv w); ds := _ |}; ebuf := ebuf w; dirty := dirty w |}) in *.
+    apply (push_common (ds (sv w)) v (dirty w) (ebuf w) (cache (sv w)) dk' pc).
     - exact Hgood.
-    - intros g. rewrite Hsaved1. destruct (snd pc) eqn:Ec; [apply vget_all_errs|]. rewrite (i_saved _ _ I). symmetry. apply Hsame. reflexivity.
-    - rewrite Hsaved1. destruct (snd pc); [apply all_errs_nonempty|apply (i_saved_ne _ _ I)].
+    - exact Hidx'.
+    - intros Ec g. rewrite (i_saved _ _ I). apply Hsame. exact Ec.
+    - apply (i_saved_ne _ _ I).
     - apply (i_cache _ _ I).
     - apply (i_open _ _ I).
-    - intros g. rewrite Hlive1. change (syn_of w' g) with (syn_of w g). specialize (Iv g).
-      assert (Hsw' : saved_of A w' g = vget (saved d1) g) by reflexivity.
-      unfold ps1. destruct (snd pc) eqn:Ec.
-      + rewrite Hsaved1. apply push_all_file_ok; [exact Iv|apply (i_saved_ne _ _ I)|apply all_errs_nonempty|apply (i_clean _ _ I)| |].
-        * intros Hdty Hl. destruct (class_conds w w' g Hlc Hun Hdty Hdty) as [C1 _].
-          { intros _. unfold live_has, ahas. cbn [w' sv ds]. rewrite Hlive1. destruct (aget (live (ds (sv w))) g); [reflexivity|contradiction]. }
-          specialize (C1 Hl). rewrite Hsw' in C1. cbn [w' sv ds] in C1. rewrite Hsaved1 in C1. exact C1.
-        * intros Hdty Hl Hfu. destruct (class_conds w w' g Hlc Hun Hdty Hdty) as [_ C2].
-          { intros Hx. contradiction. }
-          specialize (C2 Hl Hfu). rewrite !Hsw' in C2. rewrite Hsaved1 in C2. exact C2.
-      + cbn [vapply fold_left]. rewrite Hsaved1. exact Iv.
-    - intros g. rewrite Hclean1. change (syn_of w' g) with (syn_of w g). apply (i_clean _ _ I).
-    - exact Hidx'.
+    - apply (i_view _ _ I).
+    - apply (i_clean _ _ I).
+    - intros Ec g Hdty.
+      assert (Hsw' : saved_of A w' g = vget (all_errs A (fst pc)) g) by (unfold saved_of; cbn [w' sv ds]; rewrite Ec; reflexivity).
+      assert (Hsv' : saved (ds (sv w')) = all_errs A (fst pc)) by (cbn [w' sv ds]; rewrite Ec; reflexivity).
+      destruct (class_conds w w' g Hlc Hun Hdty Hdty) as [C1 C2].
+      { intros Hl. unfold live_has, ahas. cbn [w' sv ds]. rewrite Ec. cbn [fst push_all_again live].
+        destruct (aget (live (ds (sv w))) g); [reflexivity|contradiction]. }
+      rewrite Hsw', Hsv' in C1. rewrite Hsw' in C2. split; assumption.
   Qed.
 
   Definition item_disk (dk : amap txt) (i : witem A) : amap txt :=
@@ -630,25 +687,22 @@ Section Inv.
   Lemma act_watched_inv w v l :
     inv w v -> conf_action A w (AWatched l) = true ->
     let w' := fst (act A fx w (AWatched l)) in
-    k_outside A (AWatched l) = false ->
     k_live_cleared A fx w w' = false -> k_unhidden A fx w w' = false -> k_watched_dirty A fx w (AWatched l) = false ->
     k_stale_ref A fx w' = false -> k_empty_shortcut A fx w (AWatched l) = false ->
     inv w' (vapply v (snd (act A fx w (AWatched l)))).
   Proof.
     intros I Hconf. cbn zeta. unfold conf_action in Hconf. apply andb_true_iff in Hconf as [Hnd Hwm].
+    apply andb_true_iff in Hnd as [Hnd Hind].
     destruct l as [|i0 l0] eqn:El.
     - (* empty notification: nothing happens *)
-      intros _ _ _ _ _ _. cbn [act map app]. unfold steps. cbn [fold_left fst snd step]. rewrite did_watched_nil.
+      intros _ _ _ _ _. cbn [act map app]. unfold steps. cbn [fold_left fst snd step]. rewrite did_watched_nil.
       cbn [fst snd app vapply fold_left].
       destruct I as [Ig Is Ine Ic Io Iv Icl Iidx]; constructor; cbn [disk sv pj ds cache ebuf dirty]; assumption.
     - rewrite <- El in *. assert (Hne : l <> []) by (rewrite El; discriminate). clear El i0 l0.
-      intros Hout Hlc Hun Hwd Hst Hemp.
+      intros Hlc Hun Hwd Hst Hemp.
       apply fnodup_nodup in Hnd.
       assert (Hdir : forall i, In i l -> in_dir A (witem_file A i) = true).
-      { intros i Hi. unfold k_outside in Hout. cbn [action_files] in Hout.
-        destruct (in_dir A (witem_file A i)) eqn:E; [reflexivity|]. exfalso.
-        assert (existsb (fun f => negb (in_dir A f)) (map (witem_file A) l) = true); [|congruence].
-        apply existsb_exists. exists (witem_file A i). split; [apply in_map; exact Hi|]. rewrite E. reflexivity. }
+      { intros i Hi. rewrite forallb_forall in Hind. apply Hind. exact Hi. }
       assert (Hl : fix_watched fx = true \/ forall i, In i l -> aget (live (ds (sv w))) (witem_file A i) = None).
       { unfold k_watched_dirty in Hwd. destruct (fix_watched fx) eqn:Efw; [left; reflexivity|right]. cbn [negb andb] in Hwd.
         intros i Hi. destruct (aget (live (ds (sv w))) (witem_file A i)) as [l0|] eqn:E; [|reflexivity]. exfalso.
@@ -682,9 +736,205 @@ Section Inv.
         - injection Hd as ->. exact E.
         - injection Hd as ->. exact E.
         - discriminate. }
-      pose proof (he_batch A fx HA (disk w) dk' (pj (sv w)) (map (witem_ev A) l) (i_good _ _ I) B Hemp') as HE.
+      pose proof (he_batch A fx HA (member A fx w) (fun f Hf => mem_eb_in_dir (ebuf w) f Hf)
+                           (disk w) dk' (pj (sv w)) (map (witem_ev A) l) (i_good _ _ I) B Hemp') as HE.
       cbn zeta in HE. fold pc in HE. destruct HE as [HE1 HE2].
       apply (watched_common w v dk' pc I); [apply HE1; exact Hst|exact Hidx'|exact HE2|exact Hlc|exact Hun].
+  Qed.
+
+  (* ---------- a document outside the workspace joins the project (repaired code: flag fix_outside) ---------- *)
+  Lemma disk_readd (dk : amap txt) f t : aget dk f = Some t -> forall g, aget (aset (adel dk f) f t) g = aget dk g.
+  Proof.
+    intros H g. rewrite aget_aset. destruct (f =? g) eqn:E.
+    - apply N.eqb_eq in E. subst g. symmetry. exact H.
+    - apply aget_adel_other. intros ->. rewrite N.eqb_refl in E. discriminate.
+  Qed.
+
+  Lemma file_ok_clean_irrel s1 s2 lv sl vf : file_ok false s1 lv sl vf -> file_ok false s2 lv sl vf.
+  Proof. intros H. exact H. Qed.
+
+  Lemma did_open_new dk (s : server A) f t :
+    fmem f (p_files (pj s)) = false -> aget (live (ds s)) f = None -> ~ In f (clean (ds s)) ->
+    did_open A fx dk s f t =
+    let pc := handle_events A fx dk (set_lru A (pj s) (frem f (p_lru (pj s)))) [(f, KCreated)] in
+    ({| pj := fst pc; cache := aset (cache s) f t;
+        ds := if snd pc then fst (push_all_again (fix12a fx) (fix_unhidden fx) (ds s) (all_errs A (fst pc))) else ds s |},
+     if snd pc then snd (push_all_again (fix12a fx) (fix_unhidden fx) (ds s) (all_errs A (fst pc))) else []).
+  Proof.
+    intros H1 H2 H3. unfold did_open. cbn [pj set_lru p_files cache ds]. rewrite H1.
+    assert (E : unmark_clean (ds s) f = ds s).
+    { unfold unmark_clean, set_clean. rewrite frem_id by exact H3. destruct (ds s). reflexivity. }
+    rewrite E. cbn zeta.
+    destruct (handle_events A fx dk _ [(f, KCreated)]) as [p1 chg]. cbn [fst snd]. destruct chg.
+    - rewrite push_again_eq. cbn [ds pj cache fst snd]. unfold clear_change, ahas. cbn [live fst push_all_again].
+      rewrite H2. rewrite app_nil_r. reflexivity.
+    - cbn [ds pj cache]. unfold clear_change, ahas. rewrite H2. reflexivity.
+  Qed.
+
+  Lemma act_open_out_inv w v f :
+    inv w v -> in_dir A f = false -> fix_outside fx = true ->
+    let w' := fst (act A fx w (AOpen f)) in
+    k_live_cleared A fx w w' = false -> k_unhidden A fx w w' = false -> k_stale_ref A fx w' = false ->
+    inv w' (vapply v (snd (act A fx w (AOpen f)))).
+  Proof.
+    intros I Hd Hfo. cbn zeta. cbn [act]. destruct (aget (disk w) f) as [t|] eqn:Edk; [|intros; exact I].
+    destruct (aget (ebuf w) f) eqn:Eb; [intros; exact I|].
+    assert (Hnd : ~ In f (dirty w)) by (intros H; apply (i_open _ _ I) in H; congruence).
+    assert (Hlive : aget (live (ds (sv w))) f = None) by (apply (live_none_of_clean w v); assumption).
+    assert (Hncl : ~ In f (clean (ds (sv w)))).
+    { intros H. apply fmem_in in H. rewrite (i_clean _ _ I) in H. apply fmem_false in Hnd. rewrite Hnd in H. discriminate. }
+    assert (Hmf : member A fx w f = false) by (unfold member, ahas; rewrite Hd, Eb; apply andb_false_r).
+    assert (Hnf : ~ In f (p_files (pj (sv w)))).
+    { rewrite (gp_files _ _ _ _ (i_good _ _ I)). intros H. apply dfiles_in in H. destruct H as [H _]. congruence. }
+    unfold steps. cbn [fold_left fst snd step set_editor disk sv ebuf dirty].
+    rewrite (did_open_new _ _ _ _ (proj2 (fmem_false _ _) Hnf) Hlive Hncl). cbn zeta. cbn [fst snd app].
+    set (p0 := set_lru A (pj (sv w)) (frem f (p_lru (pj (sv w))))).
+    set (pc := handle_events A fx (disk w) p0 [(f, KCreated)]).
+    set (eb' := aset (ebuf w) f t).
+    rewrite (frem_id f (dirty w) Hnd).
+    set (w' := {| disk := disk w; sv := _; ebuf := eb'; dirty := dirty w |}).
+    intros Hlc Hun Hst.
+    (* the project before, seen as a project over the disk without f and the membership that already has f *)
+    assert (Hmem_other : forall g, g <> f -> mem_eb eb' g = member A fx w g).
+    { intros g Hg. unfold member, mem_eb, eb', ahas. rewrite aget_aset_other by congruence. reflexivity. }
+    assert (G0 : good_proj A (mem_eb eb') (adel (disk w) f) p0).
+    { apply good_set_lru. apply (good_proj_transport A (member A fx w) (mem_eb eb') (disk w) (adel (disk w) f) _ (i_good _ _ I)).
+      - apply dfiles_ext. intros g. rewrite aget_adel. destruct (f =? g) eqn:E.
+        + apply N.eqb_eq in E. subst g. rewrite Hmf. split; intros [H1 H2]; congruence.
+        + rewrite Hmem_other; [tauto|]. intros ->. rewrite N.eqb_refl in E. discriminate.
+      - intros g Hg. apply aget_adel_other. intros <-. apply dfiles_in in Hg. destruct Hg as [Hg _]. congruence. }
+    assert (Hshape : in_dir A f || fix_outside fx = true) by (rewrite Hfo; apply orb_true_r).
+    assert (Hmf' : mem_eb eb' f = true).
+    { unfold mem_eb, eb', ahas. rewrite Hfo, aget_aset_same. apply orb_true_r. }
+    assert (Hemp : empty_hit_p A fx p0 f t = false).
+    { unfold empty_hit_p. cbn [p0 set_lru p_fsm]. rewrite (gp_out _ _ _ _ (i_good _ _ I) f Hnf). apply andb_false_r. }
+    pose proof (he_created A fx HA (mem_eb eb') (adel (disk w) f) p0 f t G0 Hshape Hmf' Hemp) as HE. cbn zeta in HE.
+    assert (Hpc : handle_events A fx (aset (adel (disk w) f) f t) p0 [(f, KCreated)] = pc).
+    { unfold pc. rewrite !(he_created_eq A fx _ _ _ Hshape).
+      rewrite (first_one_ext A fx true (aset (adel (disk w) f) f t) (disk w)); [reflexivity|]. apply disk_readd. exact Edk. }
+    rewrite Hpc in HE. destruct HE as [HE1 HE2].
+    assert (Hidx' : fix_index fx = true -> idx_eq A (fst pc)).
+    { intros Hfix. apply handle_events_idx; [exact Hfix|]. apply set_lru_idx. apply (i_idx _ _ I). exact Hfix. }
+    assert (Hgood : good_proj A (mem_eb eb') (disk w) (fst pc)).
+    { apply (good_proj_transport A (mem_eb eb') (mem_eb eb') (aset (adel (disk w) f) f t) (disk w)).
+      - apply HE2. apply (stale_ref_false w'); [exact Hst|exact Hidx'].
+      - apply dfiles_ext. intros g. rewrite (disk_readd _ _ _ Edk). tauto.
+      - intros g _. symmetry. apply disk_readd. exact Edk. }
+    apply (push_common (ds (sv w)) v (dirty w) eb' (aset (cache (sv w)) f t) (disk w) pc).
+    - exact Hgood.
+    - exact Hidx'.
+    - intros Ec. congruence.
+    - apply (i_saved_ne _ _ I).
+    - intros g. unfold eb'. rewrite !aget_aset, (i_cache _ _ I). reflexivity.
+    - intros g Hg. unfold eb'. rewrite aget_aset_other by (intros ->; contradiction). apply (i_open _ _ I). exact Hg.
+    - intros g. pose proof (i_view _ _ I g) as Iv. destruct (N.eq_dec f g) as [<-|Hne].
+      + apply fmem_false in Hnd. rewrite Hnd in *. exact Iv.
+      + unfold syn_eb, eb'. rewrite aget_aset_other by exact Hne. exact Iv.
+    - intros g. rewrite (i_clean _ _ I). destruct (N.eq_dec f g) as [<-|Hne].
+      + apply fmem_false in Hnd. rewrite Hnd. reflexivity.
+      + unfold syn_eb, syn_of, eb'. rewrite aget_aset_other by exact Hne. reflexivity.
+    - intros Ec g Hdty.
+      assert (Hsw' : saved_of A w' g = vget (all_errs A (fst pc)) g) by (unfold saved_of; cbn [w' sv ds]; rewrite Ec; reflexivity).
+      assert (Hsv' : saved (ds (sv w')) = all_errs A (fst pc)) by (cbn [w' sv ds]; rewrite Ec; reflexivity).
+      destruct (class_conds w w' g Hlc Hun Hdty Hdty) as [C1 C2].
+      { intros Hl. unfold live_has, ahas. cbn [w' sv ds]. rewrite Ec. cbn [fst push_all_again live].
+        destruct (aget (live (ds (sv w))) g); [reflexivity|contradiction]. }
+      rewrite Hsw', Hsv' in C1. rewrite Hsw' in C2. split; assumption.
+  Qed.
+
+  (* ---------- a document outside the workspace leaves the project (repaired code) ---------- *)
+  Lemma did_close_out dk (s : server A) f : in_dir A f = false -> fix_outside fx = true ->
+    did_close A fx dk s f =
+    let d2 := remove_saved (unmark_clean (fst (clear_change (ds s) f)) f) f in
+    let pc := handle_events A fx dk (set_lru A (pj s) (frem f (p_lru (pj s)))) [(f, KDeleted)] in
+    ({| pj := fst pc; cache := adel (cache s) f;
+        ds := if snd pc then fst (push_all_again (fix12a fx) (fix_unhidden fx) d2 (all_errs A (fst pc))) else d2 |},
+     (snd (clear_change (ds s) f) ++ (if fix12b fx then push_file_diag (fst (clear_change (ds s) f)) f false else []) ++ clear_one f) ++
+     (if snd pc then snd (push_all_again (fix12a fx) (fix_unhidden fx) d2 (all_errs A (fst pc))) else [])).
+  Proof.
+    intros H1 H2. unfold did_close. rewrite H1, H2. destruct (clear_change (ds s) f) as [d0 ps1]. cbn [fst snd]. cbn zeta.
+    destruct (handle_events A fx dk _ [(f, KDeleted)]) as [p1 chg]. cbn [fst snd]. destruct chg.
+    - rewrite push_again_eq. cbn [ds pj cache fst snd]. rewrite <- !app_assoc. reflexivity.
+    - cbn [ds pj cache]. rewrite app_nil_r. reflexivity.
+  Qed.
+
+  Lemma clear_one_view f v g : vget (vapply v (clear_one f)) g = if f =? g then [] else vget v g.
+  Proof. unfold clear_one. rewrite vget_vapply. cbn [lastpub fst snd]. destruct (f =? g); reflexivity. Qed.
+
+  Lemma act_close_out_inv w v f :
+    inv w v -> in_dir A f = false -> fix_outside fx = true ->
+    let w' := fst (act A fx w (AClose f)) in
+    k_live_cleared A fx w w' = false -> k_unhidden A fx w w' = false -> k_stale_ref A fx w' = false ->
+    inv w' (vapply v (snd (act A fx w (AClose f)))).
+  Proof.
+    intros I Hd Hfo. cbn zeta. cbn [act]. destruct (aget (ebuf w) f) as [c|] eqn:Eb; [|intros; exact I].
+    unfold steps. cbn [fold_left fst snd step set_editor disk sv ebuf dirty].
+    rewrite (did_close_out _ _ _ Hd Hfo). cbn zeta. cbn [fst snd app].
+    set (p0 := set_lru A (pj (sv w)) (frem f (p_lru (pj (sv w))))).
+    set (pc := handle_events A fx (disk w) p0 [(f, KDeleted)]).
+    set (d2 := remove_saved (unmark_clean (fst (clear_change (ds (sv w)) f)) f) f).
+    set (eb' := adel (ebuf w) f).
+    set (pre := snd (clear_change (ds (sv w)) f) ++
+                (if fix12b fx then push_file_diag (fst (clear_change (ds (sv w)) f)) f false else []) ++ clear_one f).
+    set (w' := {| disk := disk w; sv := _; ebuf := eb'; dirty := frem f (dirty w) |}).
+    intros Hlc Hun Hst. rewrite vapply_app.
+    assert (Hshape : in_dir A f || fix_outside fx = true) by (rewrite Hfo; apply orb_true_r).
+    pose proof (he_deleted A fx HA (member A fx w) (disk w) p0 f (good_set_lru A _ _ _ _ (i_good _ _ I)) Hshape) as HE. cbn zeta in HE.
+    assert (Hpc : handle_events A fx (adel (disk w) f) p0 [(f, KDeleted)] = pc).
+    { unfold pc. rewrite !(he_deleted_eq A fx _ _ _ Hshape). reflexivity. }
+    rewrite Hpc in HE. destruct HE as [HE1 HE2].
+    assert (Hidx' : fix_index fx = true -> idx_eq A (fst pc)).
+    { intros Hfix. apply handle_events_idx; [exact Hfix|]. apply set_lru_idx. apply (i_idx _ _ I). exact Hfix. }
+    assert (Hmf' : mem_eb eb' f = false).
+    { unfold mem_eb, eb', ahas. rewrite Hd, aget_adel_same. apply andb_false_r. }
+    assert (Hmem_other : forall g, g <> f -> mem_eb eb' g = member A fx w g).
+    { intros g Hg. unfold member, mem_eb, eb', ahas. rewrite aget_adel_other by congruence. reflexivity. }
+    assert (Hgood : good_proj A (mem_eb eb') (disk w) (fst pc)).
+    { apply (good_proj_transport A (member A fx w) (mem_eb eb') (adel (disk w) f) (disk w)).
+      - apply HE2. apply (stale_ref_false w'); [exact Hst|exact Hidx'].
+      - apply dfiles_ext. intros g. rewrite aget_adel. destruct (f =? g) eqn:E.
+        + apply N.eqb_eq in E. subst g. rewrite Hmf'. split; intros [H1 H2]; congruence.
+        + rewrite Hmem_other; [tauto|]. intros ->. rewrite N.eqb_refl in E. discriminate.
+      - intros g Hg. symmetry. apply aget_adel_other. intros <-. apply dfiles_in in Hg. destruct Hg as [_ Hg].
+        rewrite aget_adel_same in Hg. congruence. }
+    assert (Hsaved2 : forall g, vget (saved d2) g = if f =? g then [] else vget (saved (ds (sv w))) g).
+    { intros g. unfold d2, remove_saved, unmark_clean, set_clean. cbn [saved]. rewrite vget_adel, clear_change_saved. reflexivity. }
+    assert (Hlive2 : forall g, aget (live d2) g = if f =? g then None else aget (live (ds (sv w))) g).
+    { intros g. unfold d2, remove_saved, unmark_clean, set_clean. cbn [live]. apply clear_change_live. }
+    assert (Hpre : forall g, vget (vapply v pre) g = if f =? g then [] else vget v g).
+    { intros g. unfold pre. rewrite !vapply_app, clear_one_view. destruct (f =? g) eqn:E; [reflexivity|].
+      assert (Hb : vget (vapply (vapply v (snd (clear_change (ds (sv w)) f)))
+                                (if fix12b fx then push_file_diag (fst (clear_change (ds (sv w)) f)) f false else [])) g =
+                   vget (vapply v (snd (clear_change (ds (sv w)) f))) g).
+      { destruct (fix12b fx); [|reflexivity]. rewrite push_file_diag_full_view, E. reflexivity. }
+      rewrite Hb, clear_change_view, E. reflexivity. }
+    apply (push_common d2 (vapply v pre) (frem f (dirty w)) eb' (adel (cache (sv w)) f) (disk w) pc).
+    - exact Hgood.
+    - exact Hidx'.
+    - intros Ec. congruence.
+    - intros g l Hg. unfold d2, remove_saved, unmark_clean, set_clean in Hg. cbn [saved] in Hg. rewrite aget_adel, clear_change_saved in Hg.
+      destruct (f =? g); [discriminate|]. apply (i_saved_ne _ _ I g l Hg).
+    - intros g. unfold eb'. rewrite !aget_adel, (i_cache _ _ I). reflexivity.
+    - intros g Hg. apply frem_in in Hg. destruct Hg as [Hne Hg]. unfold eb'. rewrite aget_adel_other by congruence.
+      apply (i_open _ _ I). exact Hg.
+    - intros g. rewrite Hlive2, Hsaved2, Hpre. destruct (f =? g) eqn:E.
+      + apply N.eqb_eq in E. subst g. rewrite fmem_frem_same. cbn [file_ok]. auto.
+      + assert (Hne : g <> f) by (intros ->; rewrite N.eqb_refl in E; discriminate).
+        rewrite (fmem_frem_other g f _ Hne). unfold syn_eb, eb'. rewrite aget_adel_other by congruence. exact (i_view _ _ I g).
+    - intros g. unfold d2, remove_saved, unmark_clean, set_clean. cbn [clean]. rewrite clear_change_clean, !fmem_frem, (i_clean _ _ I).
+      unfold syn_eb, syn_of, eb'. rewrite aget_adel. destruct (f =? g) eqn:E.
+      + apply N.eqb_eq in E. subst g. rewrite N.eqb_refl. reflexivity.
+      + assert (Hgf : (g =? f) = false) by (rewrite N.eqb_sym; exact E). rewrite Hgf. reflexivity.
+    - intros Ec g Hdty.
+      assert (Hne : g <> f) by (intros ->; rewrite fmem_frem_same in Hdty; discriminate).
+      assert (Efg : (f =? g) = false) by (apply N.eqb_neq; congruence).
+      assert (Hdty0 : fmem g (dirty w) = true) by (rewrite (fmem_frem_other g f _ Hne) in Hdty; exact Hdty).
+      assert (Hsw' : saved_of A w' g = vget (all_errs A (fst pc)) g) by (unfold saved_of; cbn [w' sv ds]; rewrite Ec; reflexivity).
+      assert (Hsv' : saved (ds (sv w')) = all_errs A (fst pc)) by (cbn [w' sv ds]; rewrite Ec; reflexivity).
+      destruct (class_conds w w' g Hlc Hun Hdty0 Hdty) as [C1 C2].
+      { intros Hl. unfold live_has, ahas. cbn [w' sv ds]. rewrite Ec. cbn [fst push_all_again live].
+        rewrite Hlive2, Efg. destruct (aget (live (ds (sv w))) g); [reflexivity|contradiction]. }
+      rewrite Hsw', Hsv' in C1. rewrite Hsw' in C2. rewrite Hlive2, Hsaved2, Efg. unfold saved_of in C1, C2. split; assumption.
   Qed.
 
   (* ---------- one conformant, class-free action keeps the invariant ---------- *)
@@ -694,11 +944,16 @@ Section Inv.
   Proof.
     intros I Hconf Hcl. apply classes_step_nil in Hcl.
     destruct Hcl as [Hout [Hlc [Hun [Hcr [Hwd [Hst Hemp]]]]]].
+    assert (Hone : forall f, k_outside A fx (AOpen f) = false -> in_dir A f = true \/ (in_dir A f = false /\ fix_outside fx = true)).
+    { intros f H. unfold k_outside, names_outside in H. cbn [action_files existsb] in H. rewrite orb_false_r in H.
+      destruct (in_dir A f); [left; reflexivity|right]. destruct (fix_outside fx); [auto|discriminate]. }
     destruct a as [f|f t|f|f|l|e].
-    - apply act_open_inv; [exact I|]. unfold k_outside in Hout. cbn in Hout. rewrite orb_false_r in Hout. apply negb_false_iff in Hout. exact Hout.
+    - destruct (Hone f Hout) as [Hd|[Hd Hfo]]; [apply act_open_inv; assumption|apply act_open_out_inv; assumption].
     - apply act_change_inv. exact I.
-    - apply act_save_inv; try assumption. unfold k_outside in Hout. cbn in Hout. rewrite orb_false_r in Hout. apply negb_false_iff in Hout. exact Hout.
-    - apply act_close_inv; try assumption. unfold k_outside in Hout. cbn in Hout. rewrite orb_false_r in Hout. apply negb_false_iff in Hout. exact Hout.
+    - apply act_save_inv; try assumption. intros Hb. destruct (Hone f Hout) as [Hd|[Hd Hfo]].
+      + apply mem_eb_in_dir. exact Hd.
+      + unfold member, ahas. rewrite Hfo. destruct (aget (ebuf w) f); [apply orb_true_r|congruence].
+    - destruct (Hone f Hout) as [Hd|[Hd Hfo]]; [apply act_close_inv; assumption|apply act_close_out_inv; assumption].
     - apply act_watched_inv; assumption.
     - discriminate Hconf.
   Qed.
@@ -746,8 +1001,8 @@ Section Inv.
     unfold run. destruct (init_world A fx dk) as [w0 ps0] eqn:E0. cbn [fst snd] in *.
     rewrite run_from_prefix. cbn [fst snd]. unfold view. rewrite vapply_app.
     set (wf := fst (run_from A fx (w0, []) h)) in *. set (vf := vapply (vapply [] ps0) (snd (run_from A fx (w0, []) h))) in *.
-    pose proof (i_view _ _ I f) as Iv. unfold demanded, fresh_view.
-    assert (Hperm : Permutation (vget (saved (ds (sv wf))) f) (vget (all_errs A (init_proj A fx (disk wf))) f)).
+    pose proof (i_view _ _ I f) as Iv. unfold demanded, fresh_view_open.
+    assert (Hperm : Permutation (vget (saved (ds (sv wf))) f) (vget (all_errs A (start_on A fx (member A fx wf) (disk wf))) f)).
     { rewrite (i_saved _ _ I), vget_all_errs. apply good_fresh. apply (i_good _ _ I). }
     unfold file_ok, syn_of in Iv. destruct (fmem f (dirty wf)) eqn:Ed.
     - destruct (aget (ebuf wf) f) as [b|] eqn:Eb.
@@ -786,7 +1041,7 @@ Section Inv.
 
   Theorem incremental_eq_fresh (dk : amap txt) (h : list (action A)) :
     guard A fx dk h = true -> dirty (fst (run A fx dk h)) = [] ->
-    forall f, Permutation (view (snd (run A fx dk h)) f) (fresh_view A fx (disk (fst (run A fx dk h))) f).
+    forall f, Permutation (view (snd (run A fx dk h)) f) (fresh_view_open A fx (fst (run A fx dk h)) f).
   Proof.
     intros Hg Hd f. pose proof (guarded_view dk h Hg f) as H. unfold demanded in H. rewrite Hd in H. exact H.
   Qed.
@@ -795,7 +1050,7 @@ Section Inv.
     guard A fx dk h = true -> In f (dirty (fst (run A fx dk h))) ->
     exists b, aget (ebuf (fst (run A fx dk h))) f = Some b /\
               Permutation (view (snd (run A fx dk h)) f)
-                          (if is_nil (syn A b) then nonsyn (fresh_view A fx (disk (fst (run A fx dk h))) f) else syn A b).
+                          (if is_nil (syn A b) then nonsyn (fresh_view_open A fx (fst (run A fx dk h)) f) else syn A b).
   Proof.
     intros Hg Hd. pose proof (guarded_view dk h Hg f) as H. pose proof (i_open _ _ (guarded_inv dk h Hg) f Hd) as Ho.
     unfold demanded in H. apply fmem_in in Hd. rewrite Hd in H.
@@ -812,45 +1067,113 @@ Proof.
   intros H. unfold perm_eqb. apply forallb_forall. intros e _. apply Nat.eqb_eq. apply ecount_perm. exact H.
 Qed.
 
-(* the class predicates of repaired findings are constantly false under the deployed flags *)
-Lemma repaired_classes_gone (A : analysis) (w w' : world A) (a : action A) :
-  k_live_cleared A deployed w w' = false /\ k_close_revert A deployed w a = false /\
-  k_empty_shortcut A deployed w a = false /\ k_unhidden A deployed w w' = false /\
-  k_watched_dirty A deployed w a = false /\ k_stale_ref A deployed w' = false.
+(* ---------- the class predicates of repaired findings are constantly false when their flags are on ---------- *)
+Definition six_on (fx : fixes) : bool :=
+  fix12a fx && fix12b fx && fix_index fx && fix_empty fx && fix_unhidden fx && fix_watched fx.
+
+Lemma six_on_inv fx : six_on fx = true ->
+  fix12a fx = true /\ fix12b fx = true /\ fix_index fx = true /\ fix_empty fx = true /\ fix_unhidden fx = true /\ fix_watched fx = true.
+Proof. unfold six_on. intros H. repeat (apply andb_true_iff in H; destruct H as [H ?]). auto 10. Qed.
+
+Lemma repaired_classes_gone (A : analysis) (fx : fixes) (w w' : world A) (a : action A) : six_on fx = true ->
+  k_live_cleared A fx w w' = false /\ k_close_revert A fx w a = false /\
+  k_empty_shortcut A fx w a = false /\ k_unhidden A fx w w' = false /\
+  k_watched_dirty A fx w a = false /\ k_stale_ref A fx w' = false.
 Proof.
-  split; [reflexivity|]. split; [reflexivity|]. split; [|repeat split; reflexivity].
-  unfold k_empty_shortcut, empty_hit, empty_hit_p. cbn [deployed fix_empty negb andb].
+  intros H. apply six_on_inv in H. destruct H as [H1 [H2 [H3 [H4 [H5 H6]]]]].
+  unfold k_live_cleared, k_close_revert, k_unhidden, k_watched_dirty, k_stale_ref. rewrite H1, H2, H3, H5, H6. cbn [negb andb].
+  repeat split.
+  unfold k_empty_shortcut, empty_hit, empty_hit_p. rewrite H4. cbn [negb andb].
   destruct a as [f|f t|f|f|l|e]; try reflexivity.
   - destruct (aget (ebuf w) f); reflexivity.
   - induction l as [|i l IH]; [reflexivity|]. cbn [existsb]. rewrite IH. destruct i; reflexivity.
 Qed.
 
-(* hence the only class a history of the deployed model can meet is outside_file *)
-Lemma deployed_classes_step (A : analysis) (w w' : world A) (a : action A) :
-  classes_step A deployed w a w' = if k_outside A a then [1] else [].
+(* hence the only class such a history can meet is outside_file *)
+Lemma repaired_classes_step (A : analysis) (fx : fixes) (w w' : world A) (a : action A) : six_on fx = true ->
+  classes_step A fx w a w' = if k_outside A fx a then [1] else [].
 Proof.
-  destruct (repaired_classes_gone A w w' a) as [H1 [H2 [H3 [H4 [H5 H6]]]]].
-  unfold classes_step. rewrite H1, H2, H3, H4, H5, H6. destruct (k_outside A a); reflexivity.
+  intros H. destruct (repaired_classes_gone A fx w w' a H) as [H1 [H2 [H3 [H4 [H5 H6]]]]].
+  unfold classes_step. rewrite H1, H2, H3, H4, H5, H6. destruct (k_outside A fx a); reflexivity.
 Qed.
 
-Lemma deployed_scan_inside (A : analysis) cf (h : list (action A)) : forall w,
-  inside_only A h = true -> snd (scan_history A deployed cf w h) = [].
+Lemma repaired_scan (A : analysis) (fx : fixes) cf (h : list (action A)) : six_on fx = true ->
+  fix_outside fx = true \/ inside_only A h = true -> forall w, snd (scan_history A fx cf w h) = [].
 Proof.
-  induction h as [|a h IH]; intros w Hin; [reflexivity|]. cbn [inside_only forallb] in Hin.
-  apply andb_true_iff in Hin as [Ha Hin]. apply negb_true_iff in Ha. cbn [scan_history].
-  specialize (IH (fst (act A deployed w a)) Hin).
-  destruct (scan_history A deployed cf (fst (act A deployed w a)) h) as [c ks]. cbn [snd] in *. subst ks.
-  rewrite deployed_classes_step, Ha. reflexivity.
+  intros H6. induction h as [|a h IH]; intros Hin w; [reflexivity|]. cbn [scan_history].
+  assert (Hin' : fix_outside fx = true \/ inside_only A h = true).
+  { destruct Hin as [Hin|Hin]; [left; exact Hin|right]. cbn [inside_only forallb] in Hin. apply andb_true_iff in Hin. apply Hin. }
+  assert (Ha : k_outside A fx a = false).
+  { unfold k_outside. destruct Hin as [Hin|Hin]; [rewrite Hin; reflexivity|].
+    cbn [inside_only forallb] in Hin. apply andb_true_iff in Hin as [Ha _]. apply negb_true_iff in Ha. rewrite Ha. apply andb_false_r. }
+  specialize (IH Hin' (fst (act A fx w a))).
+  destruct (scan_history A fx cf (fst (act A fx w a)) h) as [c ks]. cbn [snd] in *. subst ks.
+  rewrite (repaired_classes_step A fx _ _ _ H6), Ha. reflexivity.
 Qed.
 
+Lemma repaired_guard (A : analysis) (fx : fixes) (dk : amap (text A)) (h : list (action A)) : six_on fx = true ->
+  fix_outside fx = true \/ inside_only A h = true ->
+  conformant A fx dk h = true -> guard A fx dk h = true.
+Proof.
+  intros H6 Hin Hc. unfold guard, classes. rewrite Hc, (repaired_scan A fx _ h H6 Hin). reflexivity.
+Qed.
+
+(* when no document outside the workspace is open, fresh_view_open is the view of a plain server start *)
+Lemma fresh_view_open_plain (A : analysis) (fx : fixes) (w : world A) (f : file) :
+  (forall g, member A fx w g = in_dir A g) -> fresh_view_open A fx w f = fresh_view A fx (disk w) f.
+Proof.
+  intros H. unfold fresh_view_open, fresh_view, start_on, init_proj.
+  rewrite (filter_ext (member A fx w) (in_dir A) H). reflexivity.
+Qed.
+
+Lemma member_plain_old (A : analysis) (fx : fixes) (w : world A) : fix_outside fx = false -> forall g, member A fx w g = in_dir A g.
+Proof. intros H g. unfold member. rewrite H. apply orb_false_r. Qed.
+
+(* ---------- the deployed model: all seven repairs ---------- *)
 Lemma deployed_guard (A : analysis) (dk : amap (text A)) (h : list (action A)) :
-  conformant A deployed dk h = true -> inside_only A h = true -> guard A deployed dk h = true.
-Proof.
-  intros Hc Hin. unfold guard, classes. rewrite Hc, (deployed_scan_inside A _ h _ Hin). reflexivity.
-Qed.
+  conformant A deployed dk h = true -> guard A deployed dk h = true.
+Proof. intros Hc. apply repaired_guard; [reflexivity|left; reflexivity|exact Hc]. Qed.
 
-(* the property for the deployed model: every conformant history over workspace files *)
 Theorem deployed_view (A : analysis) (HA : analysis_ok A) (dk : amap (text A)) (h : list (action A)) :
-  conformant A deployed dk h = true -> inside_only A h = true ->
+  conformant A deployed dk h = true ->
   forall f, Permutation (view (snd (run A deployed dk h)) f) (demanded A deployed (fst (run A deployed dk h)) f).
-Proof. intros Hc Hin. apply (guarded_view A deployed HA). apply deployed_guard; assumption. Qed.
+Proof. intros Hc. apply (guarded_view A deployed HA). apply deployed_guard. exact Hc. Qed.
+
+(* ---------- fresh_view_open is what a freshly started server shows once it has been told about the open documents ---------- *)
+Section Reopen.
+  Variable A : analysis.
+  Variable fx : fixes.
+
+  Lemma act_open_dirty (w : world A) f : dirty w = [] -> dirty (fst (act A fx w (AOpen f))) = [].
+  Proof.
+    intros H. cbn [act]. destruct (aget (disk w) f) as [t|]; [|exact H]. destruct (aget (ebuf w) f); [exact H|].
+    unfold steps. cbn [fold_left fst snd step set_editor disk sv ebuf dirty].
+    destruct (did_open A fx (disk w) (sv w) f t). cbn [fst dirty]. rewrite H. reflexivity.
+  Qed.
+
+  Lemma opens_dirty l : forall (wp : world A * list publish),
+    dirty (fst wp) = [] -> dirty (fst (run_from A fx wp (map (@AOpen A) l))) = [].
+  Proof.
+    induction l as [|f l IH]; intros wp H; [exact H|]. unfold run_from. cbn [map fold_left].
+    apply IH. pose proof (act_open_dirty (fst wp) f H) as HH. destruct (act A fx (fst wp) (AOpen f)). exact HH.
+  Qed.
+
+  Lemma opens_conformant l : forall (w : world A), fst (scan_history A fx (conf_action A) w (map (@AOpen A) l)) = true.
+  Proof.
+    induction l as [|f l IH]; intros w; [reflexivity|]. cbn [map scan_history].
+    specialize (IH (fst (act A fx w (AOpen f)))).
+    destruct (scan_history A fx (conf_action A) (fst (act A fx w (AOpen f))) (map (@AOpen A) l)) as [c ks].
+    cbn [fst] in *. subst c. reflexivity.
+  Qed.
+End Reopen.
+
+Theorem fresh_reopen (A : analysis) (HA : analysis_ok A) (dk : amap (text A)) (l : list file) :
+  forall f, Permutation (view (snd (run A deployed dk (map (@AOpen A) l))) f)
+                        (fresh_view_open A deployed (fst (run A deployed dk (map (@AOpen A) l))) f).
+Proof.
+  intros f. assert (Hc : conformant A deployed dk (map (@AOpen A) l) = true) by (unfold conformant; apply opens_conformant).
+  pose proof (deployed_view A HA dk _ Hc f) as H. unfold demanded in H.
+  assert (Hd : dirty (fst (run A deployed dk (map (@AOpen A) l))) = []).
+  { unfold run. apply opens_dirty. unfold init_world. destruct (init_server A deployed dk). reflexivity. }
+  rewrite Hd in H. exact H.
+Qed.
